@@ -84,3 +84,52 @@ Qed.
    calls such a method on it, takes the flag "the receiver pointer is nil" as its first argument;
    every access to a field of the receiver is preceded by [go_rcv]: Go's nil-dereference panic. *)
 Definition go_rcv (isnil : bool) : res unit := if isnil then Panic PNil else Ok tt.
+
+(* ---- cells with OWNED slice fields and pointers into their elements (fn_heap_eptr.go) ----
+   slice.At / slice.PtrAt of the module's package slice are built in: [go_index_check] is
+   slice.indexCheck (negative offsets count from the end; GenTie/MdiffTieBase.v proves it equal to
+   the function generated from slice.go), [go_at] is slice.At with its panic message.
+   p := slice.PtrAt(O.F, i) is the INDEX of the element in the current value of O.F ([None] = nil),
+   tied statically to the owner variable O and the field F:
+     p.g      = do c <- go_hget h O; do e <- go_eget (S_F c) p; ... (E_g e)
+     p.g = v  = the same reads, then [go_eset] and [go_hmod].
+   An index outside the list cannot occur while the translator's discipline holds (the field is
+   not assigned while the pointer is attached); it is the distinguished [Panic PDangling].
+   [go_esnap]: the element a pointer designates, taken just before its owner's field is assigned
+   ([None] for nil): later reads through the detached pointer use it.
+   [go_apart]: the owners of two live element pointers must be different cells; the same cell is
+   outside the representation: the distinguished [Panic PAliased]. *)
+Definition go_index_check (i n : Z) : Z * bool :=
+  let i := (if (i <? 0)%Z then (i + n)%Z else i) in
+  (i, ((i >=? 0)%Z && (i <? n)%Z)).
+
+Definition go_at {A : Type} (l : list A) (i : Z) : res A :=
+  let '(b, ok) := go_index_check i (zlen l) in
+  if negb ok then Panic (PMsg "index out of range") else go_get l b.
+
+Definition go_ptrat {A : Type} (l : list A) (i : Z) : option Z :=
+  let '(b, ok) := go_index_check i (zlen l) in
+  if ok then Some b else None.
+
+Definition go_eget {A : Type} (l : list A) (p : option Z) : res A :=
+  match p with
+  | None => Panic PNil
+  | Some i => match go_get l i with Ok x => Ok x | _ => Panic PDangling end
+  end.
+
+Definition go_eset {A : Type} (l : list A) (p : option Z) (x : A) : res (list A) :=
+  match p with
+  | None => Panic PNil
+  | Some i => match go_set l i x with Ok l' => Ok l' | _ => Panic PDangling end
+  end.
+
+Definition go_esnap {A : Type} (l : list A) (p : option Z) : res (option A) :=
+  match p with
+  | None => Ok None
+  | Some i => match go_get l i with Ok x => Ok (Some x) | _ => Panic PDangling end
+  end.
+
+Definition PAliased : panic_kind := PMsg "<fnrt> two cells that hold live element pointers are the same cell".
+
+Definition go_apart (p q : option nat) : res unit :=
+  if go_peq p q then Panic PAliased else Ok tt.
